@@ -42,7 +42,9 @@ def _frames(draw, max_rows=14, distinct_scores=False, min_per_class=0):
     sc, ec = draw(gen.CONFIG)
     return dict(ncols=ncols, keys=[list(k) for k in keys], assign=list(assign), lab=lab, scores=scores,
                 pl=pl, sc=sc, ec=ec, index_seed=draw(st.integers(0, 10**6)),
-                frame_cols_reversed=draw(st.booleans()),
+                frame_cols_reversed=draw(st.booleans()), index_offset=draw(st.sampled_from([100, 0, 0])),
+                # rows with missing values in columns the call never reads
+                gaps=draw(st.one_of(st.none(), st.lists(st.booleans(), min_size=n, max_size=n))),
                 score_dtype=draw(st.sampled_from(["float", "float", "float", "uint8", "float32"])))
 
 
@@ -70,13 +72,16 @@ def build_frame(fr):
         data[name] = cols[name]
     data["y"] = [pos_l if b else neg_l for b in fr["lab"]]
     data["other"] = ["u"] * n
+    if fr.get("gaps"):
+        data["gaps"] = [float("nan") if m else 1.5 for m in fr["gaps"]]
+        data["note"] = [None if m else "x" for m in reversed(fr["gaps"])]
     if fr.get("score_dtype") == "uint8":   # scores quantised to integers 0..10 (tenths)
         data["s"] = np.asarray([int(round(v * 10)) for v in fr["scores"]], dtype=np.uint8)
     elif fr.get("score_dtype") == "float32":
         data["s"] = np.asarray(fr["scores"], dtype=np.float32)
     else:
         data["s"] = fr["scores"]
-    idx = np.random.RandomState(fr["index_seed"]).permutation(n) + 100
+    idx = np.random.RandomState(fr["index_seed"]).permutation(n) + fr.get("index_offset", 100)  # offset 0: labels are a permutation of the positions
     df = pd.DataFrame(data, index=idx)
     group_columns = names if fr["ncols"] > 1 else names[0]
     return df, group_columns, pos_l
@@ -383,4 +388,4 @@ PROP = Prop(
                  "row order of the result is not claimed, rows are matched by label"],
 )
 
-RULE_EXTRA = ('group columns held by the frame in reversed order; uint8 / float32 score columns.')
+RULE_EXTRA = ('unused columns with missing values (NaN / None) in some rows; group columns held by the frame in reversed order; uint8 / float32 score columns.')
